@@ -88,7 +88,7 @@ def small_rules(r, data):
 
 def gen_tasks(r, tier):
     tasks = []       # (kind, ruleset, inputs, flags, extra field)
-    nep, nblk, nev = (40, 90, 10) if tier == "quick" else (600, 1500, 150)
+    nep, nblk, nev = (40, 90, 10) if tier == "quick" else (1500, 4000, 350)
     for _ in range(nep):
         ins = gen_inputs(r)
         i = r.randrange(len(ins))
@@ -135,14 +135,14 @@ def run(tier, replay=None):
         lines = [task_line("t%d" % i, t) for i, t in enumerate(tasks)] + c10.corpus_lines("C13")
         kinds = {"t%d" % i: t[0] for i, t in enumerate(tasks)}
     env = {"ASAN_OPTIONS": "detect_leaks=0:abort_on_error=0:exitcode=99", "VF_SCRATCH": os.path.join(core.OUT, "C13")}
-    impl, rc, err = core.run_parallel([b["h_entry"]], lines, env=env)
+    impl, rc, err = core.run_parallel([b["h_entry"]], lines, env=env, timeout=2400)
     if rc != 0 or len(impl) != len(lines):
         chk.violation("harness_crash.json", {"kind": "harness-crash-or-sanitizer", "rc": rc, "stderr": err, "engine": "entry",
                                               "harness": "h_entry", "cases": lines[:10]})
         found = True
     model = []
     if lres.get("driver_ok"):
-        model, mrc, merr = core.run_parallel([core.driver_path(), "entry"], lines)
+        model, mrc, merr = core.run_parallel([core.driver_path(), "entry"], lines, timeout=2400)
     mi = {x.split(" ", 1)[0]: x.split(" ", 1)[1] for x in impl if " " in x}
     mm = {x.split(" ", 1)[0]: x.split(" ", 1)[1] for x in model if " " in x}
     known = core.known_findings("C13")
